@@ -23,6 +23,40 @@ if typing.TYPE_CHECKING:
     import onnx_ir as ir
 
 
+def _maybe_string_tensor(
+    value: typing.Any, dtype: _enums.DataType | None, name: str | None, doc_string: str | None
+) -> _core.StringTensor | None:
+    """Create a StringTensor when the value is text or bytes data.
+
+    ``str`` elements are encoded as UTF-8. The elements are kept in an object array:
+    fixed-width numpy string arrays drop trailing NUL characters.
+    """
+    if dtype is not None and dtype != _enums.DataType.STRING:
+        return None
+    if isinstance(value, np.ndarray):
+        if value.dtype.kind not in "SUO":
+            return None
+        array = value
+    else:
+        leaf = value
+        while isinstance(leaf, Sequence) and not isinstance(leaf, (str, bytes)) and leaf:
+            leaf = leaf[0]
+        if not isinstance(leaf, (str, bytes)) and dtype != _enums.DataType.STRING:
+            return None
+        if isinstance(value, (_protocols.DLPackCompatible, _protocols.ArrayCompatible)):
+            return None
+        array = np.array(value, dtype=object)
+    if not all(isinstance(elem, (str, bytes)) for elem in array.flat):
+        return None
+    encoded = np.empty(array.size, dtype=object)
+    for i, elem in enumerate(array.flat):
+        encoded[i] = elem.encode("utf-8") if isinstance(elem, str) else bytes(elem)
+    encoded = encoded.reshape(array.shape)
+    return _core.StringTensor(
+        encoded, shape=_core.Shape(encoded.shape), name=name, doc_string=doc_string
+    )
+
+
 def tensor(
     value: npt.ArrayLike | onnx.TensorProto | ir.DLPackCompatible | ir.ArrayCompatible,
     dtype: ir.DataType | None = None,
@@ -94,7 +128,10 @@ def tensor(
         # NOTE: We use str(type(...)) and do not import torch for type checking
         # as it creates overhead during import
         return tensor_adapters.TorchTensor(value, name=name, doc_string=doc_string)  # type: ignore[arg-type]
-    elif isinstance(value, (_protocols.DLPackCompatible, _protocols.ArrayCompatible)):
+    string_tensor = _maybe_string_tensor(value, dtype, name, doc_string)
+    if string_tensor is not None:
+        return string_tensor
+    if isinstance(value, (_protocols.DLPackCompatible, _protocols.ArrayCompatible)):
         return _core.Tensor(value, dtype=dtype, name=name, doc_string=doc_string)
 
     # Plain (numerical) Python object. Determine the numpy dtype and use np.array to construct the tensor
@@ -122,19 +159,6 @@ def tensor(
         numpy_dtype = None
 
     array = np.array(value, dtype=numpy_dtype)
-
-    # Handle string tensors by encoding them
-    if isinstance(value, str) or (
-        isinstance(value, Sequence) and value and all(isinstance(elem, str) for elem in value)
-    ):
-        # np,strings was added in numpy 2.0, so mypy's stubs may not include it yet.
-        array = np.strings.encode(array, encoding="utf-8")  # type: ignore[attr-defined]
-        return _core.StringTensor(
-            array,
-            shape=_core.Shape(array.shape),
-            name=name,
-            doc_string=doc_string,
-        )
 
     return _core.Tensor(
         array,
